@@ -76,6 +76,15 @@ C14_OverlongRefused(r) == r.behaviour \in {"overlong-prefix", "negative-prefix"}
 C10_RecordsEffectiveAddress(r) == C15_CookieBoundToEffective(r) /\ C15_LoginGetsCookie(r)
 C02_BoundToEffectiveAddress(r) == C15_CookieBoundToEffective(r)
 
+\* C02: "not older than the configured expiry" is judged when the cookie is PRESENTED, not when the connection began
+C02_ExpiryJudgedAtPresentation(r) == C14_CookieAcceptance(r)
+\* C06: a client that stops at any point of the script gets nothing more until the server closes the connection at its deadline
+\* (no packet of another phase, no farewell): lateBytes = bytes received after the replies to what the client did send had arrived
+C06_SilentUntilDeadlineClose(r) == r.closed /\ r.lateBytes = 0
+\* C08: how the client's bytes are cut into segments does not matter, the PROXY header included: header and first frames in one
+\* segment, the header in two pieces, or everything separately -- a well-formed client is served in all cases
+C08_HeaderSegmentationIrrelevant(r) == \A i \in 1..Len(r.results) : r.results[i].outcome = "served"
+
 Names(fam) == CASE fam = "C15" /\ Prop = "C10" -> {"C10_RecordsEffectiveAddress"} [] fam = "C15" /\ Prop = "C02" -> {"C02_BoundToEffectiveAddress"}
                 [] fam = "C15" -> {"C15_ServedIffAdmitted", "C15_RefusedGetsNothing", "C15_NoBackendForUnserved", "C15_BackendSeesEffective", "C15_CookieBoundToEffective", "C15_LoginGetsCookie"}
                 [] fam = "C16" -> IF Prop = "C17" THEN {"C17_StopsDespiteHostile"} ELSE {"C16_GoodServedPromptly", "C16_GoodServedAfterQuiet"}
@@ -83,6 +92,8 @@ Names(fam) == CASE fam = "C15" /\ Prop = "C10" -> {"C10_RecordsEffectiveAddress"
                 [] fam = "C17app" -> {"C17_ApplicationDrains"} [] fam = "C15app" -> {"C15_ApplicationWiring"} [] fam = "C15race" -> {"C15_ConcurrentAdmissions"}
                 [] fam = "C13app" -> {"C13_AppFirstAdmitted", "C13_AppTwoLimit", "C13_AppIdleReadmit"}
                 [] fam = "C14len" /\ Prop = "C04" -> {"C04_ConfiguredMaximumGoverns"}
+                [] fam = "C14cookie" /\ Prop = "C02" -> {"C02_ExpiryJudgedAtPresentation"}
+                [] fam = "C06deadline" -> {"C06_SilentUntilDeadlineClose"} [] fam = "C08hdr" -> {"C08_HeaderSegmentationIrrelevant"}
                 [] fam = "C14len" -> {"C14_MaxLength"} [] fam = "C14cookie" -> {"C14_CookieAcceptance"} [] fam = "C14deadline" -> {"C14_Deadline", "C14_OverlongRefused"}
                 [] OTHER -> {}
 Clause(c, r) ==
@@ -97,6 +108,8 @@ Clause(c, r) ==
     [] c = "C10_RecordsEffectiveAddress" -> C10_RecordsEffectiveAddress(r) [] c = "C02_BoundToEffectiveAddress" -> C02_BoundToEffectiveAddress(r)
     [] c = "C13_AppFirstAdmitted" -> C13_AppFirstAdmitted(r) [] c = "C13_AppTwoLimit" -> C13_AppTwoLimit(r) [] c = "C13_AppIdleReadmit" -> C13_AppIdleReadmit(r)
     [] c = "C04_ConfiguredMaximumGoverns" -> C14_MaxLength(r)
+    [] c = "C02_ExpiryJudgedAtPresentation" -> C02_ExpiryJudgedAtPresentation(r) [] c = "C06_SilentUntilDeadlineClose" -> C06_SilentUntilDeadlineClose(r)
+    [] c = "C08_HeaderSegmentationIrrelevant" -> C08_HeaderSegmentationIrrelevant(r)
     [] c = "C14_MaxLength" -> C14_MaxLength(r) [] c = "C14_CookieAcceptance" -> C14_CookieAcceptance(r) [] c = "C14_Deadline" -> C14_Deadline(r) [] c = "C14_OverlongRefused" -> C14_OverlongRefused(r)
     [] OTHER -> FALSE
 
